@@ -34,6 +34,7 @@ import (
 //	chain <c> state=0|1 age=<s since purchase> len=<s> hr=<GHS> payload=<kind>     (chain state, no event)
 //	startnode | restart
 //	purchased <c> [len=<s> hr=<GHS>] payload=<kind> | closed <c> | destupdate <c> payload=<kind> | advance <s>
+//	rpcfail <n>                           (the node refuses the next n eth_calls: the next event's handler cannot read the chain)
 //	otherevent <c>                        (the contract emits an event the node does not handle: fundsClaimed)
 //	termsupdate <c> len=<s> hr=<GHS>      (the seller changes the terms: applied at once to an available contract,
 //	                                       kept as future terms of a running one and applied when it closes)
@@ -314,6 +315,7 @@ func sellerExec(tr *vh.Transcript, ops []string) {
 	for _, op := range ops {
 		f := strings.Fields(op)
 		m := kvS(f[1:])
+		tr.Note("doing %s", op) // so that the op of a crash is on record
 		switch f[0] {
 		case "world":
 			var n int
@@ -392,6 +394,12 @@ func sellerExec(tr *vh.Transcript, ops []string) {
 				setC(c, m)
 				go w.chain.Emit(c.Addr, "cipherTextUpdated", c.EncrValidatorURL)
 			}
+		case "rpcfail": // the node refuses the next eth_call: the handler of the next event cannot read the contract
+			var n int
+			fmt.Sscan(f[1], &n)
+			w.chain.SetFailCalls(n)
+			tr.Op("%s", op)
+			continue
 		case "otherevent": // an event of the contract that the node has no handler for (the seller claims funds)
 			if c := w.chain.Get(sellerAddr(f[1])); c != nil {
 				go w.chain.Emit(c.Addr, "fundsClaimed")
@@ -561,6 +569,8 @@ func sellerGen(r *vh.Rng) []string {
 		if !exists[c] {
 			continue
 		}
+		rpcFail := r.Bool(8)
+		before := len(ops)
 		switch k := r.Intn(100); {
 		case k < 28 && !running[c]:
 			if newTerms[c] {
@@ -583,6 +593,12 @@ func sellerGen(r *vh.Rng) []string {
 			newTerms[c] = true
 		default:
 			ops = append(ops, fmt.Sprintf("advance %d", vh.Pick(r, []int{1, 9, 11, 30, 61, 130, 310})))
+		}
+		if rpcFail && len(ops) == before+1 {
+			switch strings.Fields(ops[before])[0] {
+			case "purchased", "closed", "destupdate", "termsupdate":
+				ops = append(ops[:before], "rpcfail 1", ops[before])
+			}
 		}
 	}
 	return append(ops, "advance 15", "advance 700")
